@@ -185,6 +185,7 @@ def run(tier, v):
     # ---- the same divisions through the worker pool, the segments arriving further apart than the workers' idle timeout
     # (the reassembly state of a connection must survive a quiet period; the sequential path above has no timers)
     pool_lines, pmeta = [], []
+    fe_lines, fe_meta = [], []
     for hi in range(0, len(hellos), max(1, len(hellos) // (12 if tier == "thorough" else 4))):
         h = hellos[hi]
         for segs in ([len(h) // 2, len(h) - len(h) // 2], [5, 60, len(h) - 65], [len(h) - 1, 1]):
@@ -192,6 +193,10 @@ def run(tier, v):
             for n in segs:
                 frames.append(tcp_frame(h[p:p + n], sport=41000 + len(pool_lines), src=(10, 9, 0, 1 + hi % 200), seq=1 + p))
                 p += n
+            fe_lines.append({"id": len(fe_lines), "crate": "tls_par", "frames": frames, "matcher": False, "cfg": {}, "cap": 100, "parallel": {"workers": 2, "queue": 64, "batch": 4, "timeout_ms": 5}})
+            fe_meta.append((hi, segs))
+            fe_lines.append({"id": len(fe_lines), "crate": "tls", "frames": frames, "matcher": False, "cfg": {}, "cap": 100})
+            fe_meta.append((hi, segs))
             for nw, bs in ((1, 1), (2, 8)):
                 pool_lines.append({"id": len(pool_lines), "crate": "tls", "workers": nw, "queue": 64, "batch": bs, "timeout_ms": 5, "gap_us": 40000, "dispatchers": [frames], "matcher": False, "perturb": 0})
                 pmeta.append((hi, segs, nw, bs))
@@ -210,6 +215,21 @@ def run(tier, v):
         if got != [base[hi]]:
             v.violation({"api": "worker pool (tls), %d worker(s), batch %d, 40 ms between segments, idle timeout 5 ms" % (nw, bs), "hello": hellos[hi].hex(), "segments": segs,
                          "expected": "exactly one result, identical to the one-segment result", "observed_results": len(got), "identical": got == [base[hi]]})
+    # ---- and through the capture front ends (analyze_pcap, sequential and parallel)
+    freq = os.path.join(wd, "fe.req")
+    vlib.write_ndjson(freq, fe_lines)
+    fout = os.path.join(wd, "fe.out")
+    vlib.run_hv_split("ana", freq, fout, parts=6, timeout=3000, env={"HV_PCAP_DIR": os.path.join(wd, "pcap")})
+    for o in vlib.read_ndjson(fout):
+        hi, segs = fe_meta[o["id"]]
+        path_ = "analyze_pcap, " + ("parallel (2 workers)" if fe_lines[o["id"]]["crate"].endswith("_par") else "sequential")
+        if "panic" in o:
+            v.violation({"api": path_, "segments": segs, "observed": "panic: " + o["panic"]})
+            continue
+        got = [hashlib.sha1(json.dumps(r_["sig"], sort_keys=True).encode()).hexdigest() for r_ in o["results"]]
+        if got != [base[hi]]:
+            v.violation({"api": path_, "hello": hellos[hi].hex(), "segments": segs, "expected": "exactly one result, identical to the one-segment result",
+                         "observed_results": len(got), "identical": got == [base[hi]]})
     n_rep = sum(1 for o in outs.values() for x in o if x > 0)
     return v.finish("model_checking", {
         "states": rA.distinct + r2.distinct, "transitions": rA.generated + r2.generated,
